@@ -68,7 +68,7 @@ theorem chkLoop_full {p sh rk KR} (h : PInv p sh rk KR) (n : Nat) (b : Barrier) 
 fine when `r` is the key the keyring is stored under, `ErrBarrierInvalidKey` (or a cipher error) otherwise. -/
 theorem follow_full {p sh rk KR} (h : PInv p sh rk KR) (r : Key) (hr : RootIs p r) (n : Nat) (b : Barrier)
     (hs : b.sealed = false) (hkr : b.keyring = some KR) :
-    (r = rk → follow p (n + 1) b = (b, [.okUp false 0, .ok, .ok])) ∧
+    (r = rk → (follow p (n + 1) b).2 = [.okUp false 0, .ok, .ok] ∧ (follow p (n + 1) b).1.keyring = some KR) ∧
     (r ≠ rk → (follow p (n + 1) b).2 = [.okUp false 0, .ok, if r.aesOK then .invalidKey else .cipher]) := by
   obtain ⟨t, ak, hre⟩ := hr
   obtain ⟨t', k', pl', he, hk'⟩ := h.dec .rootKey _ (by simp) (by simp) (by simp) hre
@@ -77,7 +77,6 @@ theorem follow_full {p sh rk KR} (h : PInv p sh rk KR) (r : Key) (hr : RootIs p 
   constructor
   · intro hrr; subst hrr
     simp [follow, chkLoop_full h n b hs hkr, step, hs, hkr, readEntry, hre, hk', hroot, h.rkOK, h.kr]
-    cases b; simp_all
   · intro hne
     have hne' : ¬ KR.root = r := by rw [hroot]; exact fun x => hne x.symm
     by_cases hok : r.aesOK = true
